@@ -89,6 +89,7 @@ ALL_OPS = [  # (op, noreply variants)
     ("incr", (None, True)), ("decr", (None, True)), ("touch", (None, False)), ("flush_all", (None, False)),
     ("version", (None,)), ("stats", (None,)), ("raw_command", (None,)), ("cache_memlimit", (None,)),
     ("quit", (None,)), ("flush_all_delay", (None, False)), ("set_many_twin", (None, False)), ("shutdown", (None,)),
+    ("incr_nrnone", (None,)), ("decr_nrnone", (None,)), ("shutdown_graceful", (None,)),
 ]
 
 
@@ -102,7 +103,7 @@ def has_op(kind, op):
     if op == "getitem_miss":
         return kind in ("client", "pooled")
     if kind in ("hash", "hashpooled"):
-        return op not in ("version", "raw_command", "cache_memlimit", "shutdown")
+        return op not in ("version", "raw_command", "cache_memlimit", "shutdown", "shutdown_graceful")
     if kind == "pooled":
         return op not in ("cache_memlimit",)
     return True
@@ -163,7 +164,7 @@ class Stack:
         # a call the harness makes fail on purpose (an illegal key) counts as a failed call: what the stack does with the
         # connection it held is judged like after any other failure
         rfault = any(k[0] == "reply" for k in plan) or op in ILLEGAL_KEY_OPS
-        kind = "quit" if op in ("quit", "shutdown") else "close" if op == "close" else "data"
+        kind = "quit" if op in ("quit", "shutdown", "shutdown_graceful") else "close" if op == "close" else "data"
         ro = op in READ_OPS
         # every data operation of these programs names at least one key (or is keyless like version / stats / flush_all):
         # it cannot be answered without asking the server
@@ -176,6 +177,8 @@ class Stack:
             args, kw = op_call("flush_all", nr, self.cfg.kind)
         elif op == "set_many_twin":
             args, kw = op_call("set_many_twin", nr, self.cfg.kind)
+        elif op in ("incr_nrnone", "decr_nrnone", "shutdown_graceful"):
+            args, kw = (), {}
         else:
             args, kw = op_call(op, nr, self.cfg.kind)
         try:
@@ -187,6 +190,10 @@ class Stack:
                 val = self.client.flush_all(delay=30, **kw)
             elif op == "set_many_twin":
                 val = self.client.set_many(*args, **kw)
+            elif op in ("incr_nrnone", "decr_nrnone"):
+                val = getattr(self.client, op[:4])(K1, 1, noreply=None)      # None is falsy: the call waits for the number
+            elif op == "shutdown_graceful":
+                val = self.client.shutdown(graceful=True)
             else:
                 val = getattr(self.client, op)(*args, **kw)
         except BaseException as exc:   # noqa: B902 -- the harness must see interrupts too
